@@ -428,3 +428,100 @@ class _oi:
                    collection=TVal, operator_lt=TVal, operator_gt=TVal,
                    order=None, sorted=None, context=None)._with(
                        name, path, order=[first])
+
+
+def lambda_contracts():
+    """C11, per-element lambdas: a lambda is applied once per element the
+    operator consumes / emits, never speculatively.  `ncalls(f)` is the
+    ghost counter of applications of callback f."""
+    cs = []
+    IT = TIter(TVal)
+
+    def c(fname, **kw):
+        kw.setdefault('serves', ('C11',))
+        kw.setdefault('native', False)
+        x = Contract(Q + fname, **kw)
+        cs.append(x)
+        return x
+    # generate(): the selector runs exactly once per emitted element (in
+    # particular not on the repeated element that ends a decycled run), the
+    # producer once per emitted element, the predicate once per test
+    for sel in (True, False):
+        for decycle in (True, False):
+            inv = ['ncalls(producer) == len(out)',
+                   'ncalls(predicate) == len(out)']
+            ens = ['ncalls(producer) == len(out)',
+                   'ncalls(predicate) >= len(out) and '
+                   'ncalls(predicate) <= len(out) + 1']
+            if sel:
+                inv.append('ncalls(selector) == len(out)')
+                ens.append('ncalls(selector) == len(out)')
+            c('generate', name='queries.generate/selector=%s,decycle=%s' % (
+                sel, decycle),
+              params=dict(engine=TVal, initial=TVal, predicate=TFunc(1),
+                          producer=TFunc(1),
+                          selector=TFunc(1) if sel else None,
+                          decycle=decycle),
+              ensures=ens,
+              raises={'MemoryQuotaExceededException': 'True'},
+              loops=[dict(anchor='while predicate(initial)',
+                          invariant=inv)])
+    # searching / testing with a predicate: one application per element
+    # pulled from the source, none ahead of the pull, none repeated
+    c('index_where', name='queries.index_where/calls',
+      params=dict(collection=IT, predicate=TFunc(1)),
+      ensures=['ncalls(predicate) == SRC.pos'],
+      loops=[dict(anchor='for i, t in enumerate(collection)', index='n',
+                  invariant=['SRC.pos == n', 'ncalls(predicate) == n'])],
+      track_pulls='collection')
+    c('last_index_where', name='queries.last_index_where/calls',
+      params=dict(collection=IT, predicate=TFunc(1)),
+      ensures=['ncalls(predicate) == len(SRC.seq)'],
+      loops=[dict(anchor='for i, t in enumerate(collection)', index='n',
+                  invariant=['ncalls(predicate) == n'])],
+      track_pulls='collection')
+    for fn in ('any_', 'all_'):
+        c(fn, name='queries.%s/calls' % fn,
+          params=dict(collection=IT, predicate=TFunc(1)),
+          ensures=['ncalls(predicate) == SRC.pos'],
+          loops=[dict(anchor='for t in collection', index='n',
+                      invariant=['SRC.pos == n', 'ncalls(predicate) == n'])],
+          track_pulls='collection')
+    # distinct: the key selector once per source element
+    c('distinct', name='queries.distinct/calls',
+      params=dict(engine=TVal, collection=IT, key_selector=TFunc(1)),
+      ensures=['ncalls(key_selector) == len(SRC.seq)'],
+      loops=[dict(anchor='for t in collection', index='n',
+                  invariant=['ncalls(key_selector) == n'])],
+      track_pulls='collection')
+    # splitWhere / sliceWhere: the predicate once per element of the list
+    for fn in ('split_where', 'slice_where'):
+        c(fn, name='queries.%s/calls' % fn,
+          params=dict(collection=TSeq(TVal), predicate=TFunc(1),
+                      to_list=_ident()),
+          ensures=['ncalls(predicate) == len(collection)'],
+          loops=[dict(anchor='while end < len(lst)',
+                      havoc={'p1': TVal},
+                      invariant=['0 <= end and end <= len(lst)',
+                                 '0 <= start and start <= end',
+                                 'ncalls(predicate) == end'])])
+    # accumulate: the folding lambda once per element after the first
+    c('accumulate', name='queries.accumulate/calls',
+      params=dict(collection=IT, selector=TFunc(2), seed=TVal),
+      env={'NV': NV}, requires=['seed is not NV'],
+      ensures=['ncalls(selector) == len(SRC.seq)',
+               'len(out) == len(SRC.seq) + 1'],
+      loops=[dict(anchor='for x in it', index='n',
+                  invariant=['ncalls(selector) == n',
+                             'len(out) == n + 1'])],
+      track_pulls='collection')
+    return cs
+
+
+class _ident:
+    """to_list delegate: the list of the (already sized) collection."""
+    is_factory = True
+
+    def __call__(self, name, path):
+        from vlib.pyvc.interp import Model
+        return Model(name, lambda x: x)
